@@ -150,6 +150,16 @@ SinkDrop(k) ==
   /\ Step([o |-> "dropSink", k |-> k], "ok")
   /\ UNCHANGED <<cap, open, queue, wire>>
 
+(* the task that owns the sinks panics: every sink it holds is dropped while unwinding - the subscription is over exactly as if  *)
+(* the sinks had been dropped one by one (entry gone, slot back)                                                              *)
+SinkPanic(k) ==
+  /\ Bounded /\ sub[k].sinks > 0 /\ sub[k].chk = "none"
+  /\ sub' = [sub EXCEPT ![k].sinks = 0]
+  /\ table' = table \ {k}
+  /\ permits' = [permits EXCEPT ![ConnOf[k]] = @ + 1]
+  /\ Step([o |-> "panic", k |-> k], "ok")
+  /\ UNCHANGED <<cap, open, queue, wire>>
+
 (* ---- SubscriptionSink::send (subscription.rs:338-353) is two steps: read the closed state, then an awaited enqueue. ---- *)
 (* A send that passed its check before the subscription was closed may still be delivered after the close.              *)
 SendCheck(k) ==
@@ -236,7 +246,7 @@ WriterSend(c) ==
   /\ queue' = [queue EXCEPT ![c] = Tail(@)]
   /\ UNCHANGED <<cap, permits, sub, table, open, path>>
 
-Acts == \/ \E k \in SubOps : Subscribe(k) \/ Accept(k) \/ AcceptInsert(k) \/ Reject(k) \/ DropPending(k) \/ SinkClone(k) \/ SinkDrop(k) \/ SendCheck(k) \/ SendEnqueue(k)
+Acts == \/ \E k \in SubOps : Subscribe(k) \/ Accept(k) \/ AcceptInsert(k) \/ Reject(k) \/ DropPending(k) \/ SinkClone(k) \/ SinkDrop(k) \/ SinkPanic(k) \/ SendCheck(k) \/ SendEnqueue(k)
         \/ \E k \in SubOps, b \in BOOLEAN : HandlerReturn(k, b)
         \/ \E c \in Conns, k \in SubOps : Unsub(c, k)
         \/ \E c \in Conns : ConnClose(c) \/ WriterSend(c)
